@@ -1037,7 +1037,7 @@ def main():
     steps = [("tables", lambda: gen_safe(facts, gen_exports_and_macros(facts))),
              ("dispatch", lambda: gen_dispatch(facts))]
     import importlib
-    for modname in ("translate_more", "translate_feat", "translate_crate", "translate_utils"):
+    for modname in ("translate_more", "translate_feat", "translate_crate", "translate_utils", "translate_regs"):
         try:
             mod = importlib.import_module(modname)
         except ImportError:
